@@ -3,12 +3,12 @@ import sys, importlib, json
 sys.path.insert(0, '/verif/harness')
 import common, histcheck
 prop = sys.argv[1]; n = int(sys.argv[2]); seed = int(sys.argv[3]) if len(sys.argv) > 3 else 0
-ctx = common.Ctx(prop.upper(), 'quick', seed)
+ctx = common.Ctx(prop.upper(), 'quick' if n < 5000 else 'thorough', seed)
 mod = importlib.import_module('props.' + prop.lower())
-eng = histcheck.Engine(ctx, mod)
-cov = eng.run(n)
-cov.pop('samples')
-print(json.dumps(cov, indent=0, default=repr)[:3000])
+ctx.n = lambda q, t: n
+cov = mod.run(ctx, {}, True)
+cov.pop('samples', None)
+print(json.dumps({k: cov[k] for k in cov if k in ('evaluations', 'histories', 'distinct_nontrivial', 'stats')}, default=repr))
 print('known seen', ctx.known_seen)
 for rank, _, r, no_input in sorted(ctx.violations, key=lambda v: (v[3], v[0]))[:5]:
     print('VIOL', no_input, json.dumps(r, default=repr)[:1800])
